@@ -1,20 +1,13 @@
 // C19 lemmas for the ROS 2 rr analysis: the result is a function of the supply-bound function and its inverse only
 verus! {
 
-pub proof fn lemma_scan_ext(s1: spec_fn(int) -> int, s2: spec_fn(int) -> int, off: int, w: spec_fn(int) -> int, r: int, limit: int)
-    requires off >= 0, r >= 0, forall |x: int| x >= 0 ==> #[trigger] s1(x) == s2(x)
-    ensures scan(s1, off, w, r, limit) == scan(s2, off, w, r, limit)
-    decreases limit + 1 - r
-{
-    if r <= limit { assert(s1(off + r) == s2(off + r)); if !(s1(off + r) >= w(m1(r))) { lemma_scan_ext(s1, s2, off, w, r + 1, limit); } }
-}
 /// C19: two supplies with the same SBF and the same inverse give the same rr result
 pub proof fn lemma_c19_rr_supply_equiv<S1: SupplyBound + ?Sized, S2: SupplyBound + ?Sized, AB: ArrivalBound + ?Sized, CM: JobCostModel + ?Sized>(
     s1: &S1, s2: &S2, workload: Seq<Callback<AB, CM>>, subchain: Seq<&Callback<AB, CM>>, limit: int)
     requires forall |x: int| x >= 0 ==> #[trigger] s1.sbf(x) == s2.sbf(x), forall |d: int| d >= 0 ==> #[trigger] s1.st(d) == s2.st(d),
              s1.wf(), subchain.len() >= 1, (subchain[subchain.len() - 1]).cost_model.wf()
     ensures rr_spec(s1, workload, subchain, limit) == rr_spec(s2, workload, subchain, limit)
-{
+{ /*@lprobe*/
     let eoc = subchain[subchain.len() - 1]; let npp = npp_spec(subchain); let w = w_s(workload, eoc, npp);
     assert forall |x: int| x >= 0 implies #[trigger] sbf_of(s1)(x) == sbf_of(s2)(x) by { assert(s1.sbf(x) == s2.sbf(x)); }
     lemma_scan_ext(sbf_of(s1), sbf_of(s2), 0, w, 0, limit);
@@ -34,7 +27,7 @@ pub proof fn lemma_c19_rr_full_budget<AB: ArrivalBound + ?Sized, CM: JobCostMode
     requires p.budget.v() == p.period.v() >= 1, c.budget.v() == c.deadline.v() == c.period.v() >= 1, subchain.len() >= 1, (subchain[subchain.len() - 1]).cost_model.wf()
     ensures rr_spec(&p, workload, subchain, limit) == rr_spec(&Dedicated {}, workload, subchain, limit),
             rr_spec(&c, workload, subchain, limit) == rr_spec(&Dedicated {}, workload, subchain, limit),
-{
+{ /*@lprobe*/
     let dd = Dedicated {};
     assert forall |x: int| x >= 0 implies #[trigger] dd.sbf(x) == p.sbf(x) && dd.sbf(x) == c.sbf(x) by { lemma_full_budget_is_dedicated(p.period.v(), x); lemma_full_budget_is_dedicated(c.period.v(), x); }
     assert forall |d: int| d >= 0 implies #[trigger] dd.st(d) == p.st(d) && dd.st(d) == c.st(d) by { lemma_full_budget_is_dedicated(p.period.v(), d); lemma_full_budget_is_dedicated(c.period.v(), d); }
